@@ -68,7 +68,11 @@ type layerDesc struct {
 
 func oneCase(o *out.W, r *rng.R, i int) {
 	W, H := float64(r.Range(8, 36)), float64(r.Range(8, 30))
-	dpmm := rng.Pick(r, []float64{0.5, 1, 2, 3, 4})
+	dpmm := rng.Pick(r, []float64{0.5, 1, 2, 3, 4, 0.25, 0.5})
+	if dpmm < 1 {
+		// coarse resolutions on larger canvases (same image sizes)
+		W, H = W/dpmm, H/dpmm
+	}
 	var cs canvas.ColorSpace = canvas.LinearColorSpace{}
 	csName := "linear"
 	switch r.Intn(4) {
@@ -106,6 +110,9 @@ func oneCase(o *out.W, r *rng.R, i int) {
 		k := 1.0
 		for ext*k > math.Min(W, H) {
 			k /= 2
+		}
+		for dpmm < 1 && ext*k*2 <= math.Min(W, H)/2 {
+			k *= 2
 		}
 		// one layer in four is a small shape in one quadrant of the canvas instead of a large one around the centre
 		qx, qy := 0.5, 0.5
